@@ -505,6 +505,12 @@ async fn run_demux(case: &Value) -> Value {
                 }
             }
         }
+        // every other batch: one more cut strictly inside one of the delimiters
+        if r.chance(1, 2) {
+            let ends = crate::realwire::delimiter_ends(&stream);
+            let e = ends[r.below(ends.len())];
+            cuts.push(e - r.range(1, 5));
+        }
         cuts.retain(|c| *c > 0 && *c < stream.len());
         cuts.sort_unstable();
         cuts.dedup();
